@@ -210,7 +210,7 @@ def focuses(prog, info):
     for v in names:
         others = [n for n in names if n != v]
         out.append((v, others[0] if others else None))
-    if "attr" in prog.forms:
+    if "attr" in prog.forms or "attr-aug" in prog.forms or "attr-yield" in prog.forms:
         out.append(("o.at", "x"))
     out.append(("#value", "x"))
     return out
